@@ -1,4 +1,6 @@
 import Driver.Loop
+import Driver.C13
+import Driver.C14
 
 /-- handlers of this executable; each builder adds `Driver.Cxx.handle` here -/
-def main : IO Unit := Driver.runMain []
+def main : IO Unit := Driver.runMain [Driver.C13.handle, Driver.C14.handle]
